@@ -9,10 +9,10 @@ import (
 	"verif/h/spec"
 )
 
-func newProduct(id, tier string, needModel bool, o oracleFn) *productJob {
+func newProduct(id, tier string, needModel bool, o oracleFn, extra ...gen.Ladder) *productJob {
 	return &productJob{
 		id:                   id,
-		units:                unitsOf(stdLadders(tier)),
+		units:                unitsOf(append(stdLadders(tier), extra...)),
 		ds:                   newDocSet(stdDocSpec(tier), []int{modeFloat, modeNumber}),
 		env:                  impl.NewEnv(),
 		oracle:               o,
@@ -215,7 +215,28 @@ func init() {
 			"integer-boundary subscripts are explored by C11; non-JSON values by C20",
 		},
 		Bounds: productBounds("C03"),
-		New:    func(tier string) run.Job { return newProduct("C03", tier, false, c03Oracle) },
+		New: func(tier string) run.Job {
+			// integer-boundary subscripts, alone and after/before every mid-alphabet step
+			nb := len(gen.SigmaBoundary())
+			alpha := append(gen.SigmaBoundary(), gen.SigmaMid()...)
+			isB := func(s *gen.Step) bool {
+				for i := 0; i < nb; i++ {
+					if gen.Render(gen.P('$', alpha[i]), nil).Text == gen.Render(gen.P('$', *s), nil).Text {
+						return true
+					}
+				}
+				return false
+			}
+			bnd := gen.Ladder{Alpha: alpha, Depth: 2, Modes: []int{modeFloat}, Keep: func(p *gen.Path) bool {
+				for i := range p.Steps {
+					if isB(&p.Steps[i]) {
+						return true
+					}
+				}
+				return false
+			}}
+			return newProduct("C03", tier, false, c03Oracle, bnd)
+		},
 		Finish: func(tier string, total *run.Ctx, cov map[string]interface{}) {
 			// the invariant is evaluated on executions of the implementation; each execution is a
 			// state of the explored space and each call a transition
